@@ -1858,7 +1858,9 @@ pub fn is_reference(ent: EntRef<'_>, other: EntRef<'_>) -> bool {
         return true;
     }
 
-    if ent.is_instance_of(other) || other.is_instance_of(ent) {
+    // An instance is also related to what is declared by the entity it is an instance of,
+    // such as a subprogram body or the full declaration of a deferred constant
+    if ent.is_instance_of(other.declaration()) || other.is_instance_of(ent.declaration()) {
         return true;
     }
 
